@@ -307,7 +307,11 @@ func (g *gen) ty1(depth int) *Ty {
 		k := 1 + g.r.Intn(4)
 		fs := make([]*Ty, k)
 		for i := range fs {
-			fs[i] = g.ty(depth - 1)
+			if i > 0 && g.r.Intn(3) == 0 {
+				fs[i] = fs[i-1] // one type under several selectors
+			} else {
+				fs[i] = g.ty(depth - 1)
+			}
 		}
 		return &Ty{Kind: "union", Fields: fs, None: g.r.Intn(2) == 0}
 	}
